@@ -60,6 +60,24 @@ type HandOff struct {
 	Class              string
 }
 
+// Section is an atomic-section obligation: in Func (where the To event occurs; "" = anywhere), every
+// To event lies in the same uninterrupted hold of a lock of class Lock as a preceding From event.
+type Section struct {
+	ID, Func, From, To, Lock string
+	Why                      string
+}
+
+// Require: every occurrence of Event in Func happens with a lock of class Lock held (mode W if Write).
+type Require struct {
+	ID, Func, Event, Lock string
+	Write                 bool
+	Why                   string
+	// optional: applies only on paths where the named parameter of the enclosing (possibly inlined)
+	// function is known to have a sign within SignMask (1 neg, 2 zero, 4 pos)
+	Param    string
+	SignMask uint8
+}
+
 // Tables is the frozen slot filling for E1.
 type Tables struct {
 	Fields     []FieldRule
@@ -73,4 +91,6 @@ type Tables struct {
 	InitFuncs  map[string][]string // "Type.field" -> functions allowed to store an INIT-ONCE field on a shared object
 	RootPre    map[string][]string // root function -> lock paths (relative to params) held on entry, e.g. WaitCond: {"cond.L"}
 	Opaque     map[string]bool     // in-package functions not to inline (none today)
+	Sections   []Section
+	Requires   []Require
 }
